@@ -749,7 +749,7 @@ Section RunStructure.
     bind (call_forward_analyis T t_eqb univ null union inter single f fuel keys wl d) (fun r =>
     match r with
     | None => ret None
-    | Some d1 => bind (backward_worklist_gen f po) (fun wl' => call_backward_analysis T t_eqb null union inter f fuel keys wl' d1)
+    | Some d1 => bind (backward_worklist_gen f po) (fun wl' => call_backward_analysis T t_eqb univ null union inter f fuel keys wl' d1)
     end)).
   (* _update_gtxn_constraints for every block *)
   Definition refine_gen (keys : list string) (d : gdict) : py gdict :=
@@ -774,10 +774,10 @@ Section RunStructure.
     destruct (forward_worklist_gen po) as [wl|]; [|reflexivity]. cbn [bind].
     destruct (call_forward_analyis T t_eqb univ null union inter single f fuel BASE_KEYS wl d0) as [[d1|]|]; [|reflexivity|reflexivity]. cbn [bind].
     destruct (backward_worklist_gen f po) as [wl'|]; [|reflexivity]. cbn [bind].
-    destruct (call_backward_analysis T t_eqb null union inter f fuel BASE_KEYS wl' d1) as [[d2|]|]; [|reflexivity|reflexivity]. cbn [bind].
+    destruct (call_backward_analysis T t_eqb univ null union inter f fuel BASE_KEYS wl' d1) as [[d2|]|]; [|reflexivity|reflexivity]. cbn [bind].
     match goal with |- bind ?X _ = bind ?Y _ => change X with Y; destruct Y as [d3|]; [|reflexivity] end. cbn [bind].
     destruct (call_forward_analyis T t_eqb univ null union inter single f fuel gk wl d3) as [[d4|]|]; [|reflexivity|reflexivity]. cbn [bind].
-    destruct (call_backward_analysis T t_eqb null union inter f fuel gk wl' d4) as [[d5|]|]; reflexivity.
+    destruct (call_backward_analysis T t_eqb univ null union inter f fuel gk wl' d4) as [[d5|]|]; reflexivity.
   Qed.
 End RunStructure.
 
@@ -854,7 +854,7 @@ Section Passes.
     rewrite (backward_worklist_gen_eq f _ Hpo). cbn [bind].
     change (flat_map (fun l => filter (nonleaf f) l) (postorders f)) with (backward_worklist f).
     unfold call_backward_analysis.
-    rewrite (backward_analysis_gen_eq T t_eqb null union inter f key _ fuel _ Hm Hnd).
+    rewrite (backward_analysis_gen_eq T t_eqb univ null union inter f key _ fuel _ Hm Hnd).
     - rewrite view_kset_same. fold (bwd_st0 T (null key) f ro).
       match goal with |- context [omap _ ?X] => destruct X as [lo| |] end; cbn [omap erase]; try reflexivity.
       rewrite kdict_set_set. reflexivity.
@@ -874,7 +874,7 @@ Section Passes.
   Qed.
 
   Lemma loop_bwd_nil : forall fuel wl (d gl : gdict), incl wl U ->
-    backward_analysis_loop_gen T t_eqb null union inter f fuel [] wl d gl =
+    backward_analysis_loop_gen T t_eqb univ null union inter f fuel [] wl d gl =
     if Nat.ltb (length wl) fuel then Some (Some ([], gl)) else Some None.
   Proof.
     induction fuel as [|fu IH]; intros wl d gl Hwl; [reflexivity|].
